@@ -42,7 +42,9 @@ def value(r, ins, regs, mems, depth=0):
     if k < 0.70:
         m = r.choice(mems)
         ins.min.add(m)
-        return "m %s %d %s" % (m, r.choice([8, 8, 4, 1]), address(r, ins, regs, depth + 1))
+        # rarely a wide load (one cached piece of 40/64 bytes which later narrow loads are cut out of)
+        lw = r.choice([8, 8, 4, 1]) if r.random() < 0.93 else r.choice([16, 40, 64, 64])
+        return "m %s %d %s" % (m, lw, address(r, ins, regs, depth + 1))
     if k < 0.78:
         return "l 8 %s %s %s %s" % (value(r, ins, regs, mems, depth + 1), value(r, ins, regs, mems, depth + 1),
                                     value(r, ins, regs, mems, depth + 1), value(r, ins, regs, mems, depth + 1))
@@ -54,7 +56,7 @@ def address(r, ins, regs, depth=0):
     """A memory address: a few fixed cells (so loads see earlier stores) or register based."""
     k = r.random()
     if k < 0.55:
-        return c64(r.choice([0, 4, 8, 12, 16, 1000, TOP - 4]))
+        return c64(r.choice([0, 4, 8, 12, 16, 0, 4, 8, 12, 16, 32, 36, 40, 48, 1000, TOP - 4]))
     x = r.choice(regs)
     ins.rin.add(x)
     if k < 0.8:
